@@ -18,8 +18,10 @@ META = dict(
                 "symbolic criteria matrices: the returned perm is a permutation, maximises mean SIR over all permutations, is the identity when "
                 "compute_permutation=False, the outputs are the selected matrix entries and no output depends on uninitialised np.empty cells; "
                 "(c) *_framewise: window count, the exact slices handed to the non-framewise function, its results copied per window, NaN in every "
-                "metric for windows with a silent source, documented arity for empty input.",
-    bounds="nsrc <= 3 (perm), flen = 2, nsampl <= 3 (decomposition); framewise: nsrc 2, 6-8 samples, window 4, hop 2, all placements of a silent window",
+                "metric for windows with a silent source, documented arity for empty input; (d) the real _safe_db on symbolic energies and the real "
+                "_bss_source_crit / _bss_image_crit on symbolic component vectors (not stubbed): a ratio is +inf exactly when its error component is "
+                "identically zero, also after a common positive factor (what scaling an estimate does to every energy).",
+    bounds="nsrc <= 3 (perm), flen = 2, nsampl <= 3 (decomposition); framewise: nsrc 2, 6-8 samples, window 4, hop 2, all placements of a silent window; criteria: component vectors of length 1 (image criteria: thorough tier only)",
     stubs=["_project (arbitrary vectors), _bss_decomp_mtifilt(_images) / _bss_source_crit / _bss_image_crit (arbitrary criteria), bss_eval_sources / "
            "bss_eval_images inside the framewise variants (arbitrary per-window results); np.empty returns fresh unconstrained variables"],
     assumptions=["NOT claimed (not applicable to this technique): scale invariance of SDR/SIR/SAR, 'perfect estimate => identity permutation with very high "
@@ -231,9 +233,73 @@ def job_empty(images, framewise):
     return Job('C19', '%s[empty input]' % name, build, body, funcs=['separation.' + name])
 
 
+def _isinf(r):
+    return (not S.is_sym(r)) and bool(np.isposinf(r))     # +inf only: a vanishing numerator gives -inf, which is not at issue here
+
+
+def job_safe_db():
+    """the real _safe_db on a symbolic energy ratio: +inf exactly for a zero denominator, and the same value after both energies are
+    multiplied by a symbolic positive constant (what scaling an estimate by c != 0 does to every energy: factor c^2)"""
+    def build(ctx):
+        num, den, k = ctx.real('num'), ctx.real('den'), ctx.real('k')
+        ctx.assume(num > 0)
+        ctx.assume(den >= 0)
+        ctx.assume(k > 0)
+        return dict(num=num, den=den, k=k)
+
+    def body(A, inp):
+        num, den, k = inp['num'], inp['den'], inp['k']
+        r1 = SEP._safe_db(num, den)
+        r2 = SEP._safe_db(num * k, den * k)
+        A.observe('db', r1)
+        A.observe('db_scaled', r2)
+        i1, i2 = _isinf(r1), _isinf(r2)
+        A.require(A.Or(A.xeq(den, 0), not i1), '_safe_db:+inf-only-for-a-zero-denominator')
+        A.require(A.Or(A.xgt(den, 0), i1), '_safe_db:zero-denominator=>+inf')
+        A.require(i1 == i2, '_safe_db:infinite-or-not-regardless-of-a-common-positive-factor')
+    return Job('C19', '_safe_db[symbolic energies, common factor]', build, body, funcs=['separation._safe_db'])
+
+
+def job_crit(images, n=2):
+    """the real _bss_source_crit / _bss_image_crit on symbolic component vectors: a ratio is +inf exactly when its error component is
+    identically zero (so a small but non-zero error can never be reported as a perfect separation)"""
+    name = '_bss_image_crit' if images else '_bss_source_crit'
+    comps = ('s_true', 'e_spat', 'e_interf', 'e_artif')
+
+    def build(ctx):
+        d = {}
+        for c in comps:
+            d[c] = [ctx.real('%s%d' % (c, t)) for t in range(n)]
+        tot = 0
+        for t in range(n):
+            tot = tot + d['s_true'][t] * d['s_true'][t]
+        ctx.assume(tot > 0)          # non-silent reference (documented precondition)
+        return d
+
+    def body(A, inp):
+        v = {c: (S.array(inp[c]) if A.sym else np.array(inp[c], dtype=float)) for c in comps}
+        out = getattr(SEP, name)(v['s_true'], v['e_spat'], v['e_interf'], v['e_artif'])
+        if images:
+            errs = [('sdr', [v['e_spat'][t] + v['e_interf'][t] + v['e_artif'][t] for t in range(n)]), ('isr', list(v['e_spat'])),
+                    ('sir', list(v['e_interf'])), ('sar', list(v['e_artif']))]
+        else:
+            errs = [('sdr', [v['e_interf'][t] + v['e_artif'][t] for t in range(n)]), ('sir', list(v['e_interf'])), ('sar', list(v['e_artif']))]
+        A.require(len(out) == len(errs), '%s:arity' % name)
+        for (nm, e), r in zip(errs, out):
+            zero = True
+            for t in range(n):
+                zero = A.And(zero, A.xeq(e[t], 0))
+            inf = _isinf(r)
+            A.require(A.Or(A.Not(zero), inf), '%s:%s-is-+inf-when-the-error-component-vanishes' % (name, nm))
+            A.require(A.Or(zero, not inf), '%s:%s-is-finite-for-any-non-zero-error-component' % (name, nm))
+    return Job('C19', '%s[n=%d symbolic components]' % (name, n), build, body, funcs=['separation.' + name, 'separation._safe_db'])
+
+
 def jobs(tier):
     q = tier == 'quick'
-    js = []
+    js = [job_safe_db(), job_crit(False, 1)]
+    if not q:
+        js.append(job_crit(True, 1))     # ~300 s of non-linear real arithmetic: thorough tier only
     for (nsrc, ns) in ([(1, 2), (2, 2)] if q else [(1, 2), (2, 2), (2, 3), (3, 3)]):
         js.append(job_decomposition(nsrc, ns))
     for images in (False, True):
